@@ -91,8 +91,8 @@ out.append('Bifs == {' + ', '.join(tla_str(b) for b in bifs) + '}\n')
 out.append('ArgPool == <<' + ',\n            '.join(seq(a) for a in args) + '>>\n')
 out.append('QuickArgs == %d\n' % quick_args)
 out.append('''Args1 == {ArgPool[i] : i \\in 1..(IF Deep THEN Len(ArgPool) ELSE QuickArgs)}
-Args2 == {ArgPool[i] : i \\in 1..(IF Deep THEN 24 ELSE 8)}
-Args3 == {ArgPool[i] : i \\in 1..(IF Deep THEN 10 ELSE 4)}
+Args2 == {ArgPool[i] : i \\in 1..(IF Deep THEN 16 ELSE 8)}
+Args3 == {ArgPool[i] : i \\in 1..(IF Deep THEN 6 ELSE 4)}
 BifDocs == {<<f, "(", ")">> : f \\in Bifs}
            \\cup {<<f, "(">> \\o a \\o <<")">> : f \\in Bifs, a \\in Args1}
            \\cup {<<f, "(">> \\o a \\o <<",">> \\o b \\o <<")">> : f \\in Bifs, a \\in Args2, b \\in Args1}
@@ -108,7 +108,7 @@ NestDocs == {Apply(s, [f |-> "nest", n |-> n, o |-> p[1], c |-> p[2]]) : s \\in 
 \\* seed documents for fault injection: one rendering per template (hole filled with a name), the innermost constructs, some specials
 TreeDocs == {RenderMin(Fill(tp, h)) : tp \\in Templates, h \\in Inner}
 FaultSeeds == {RenderMin(Fill(tp, C)) : tp \\in Templates} \\cup {RenderMin(h) : h \\in Inner}
-              \\cup (IF Deep THEN {RenderMin(Fill(tp, h)) : tp \\in Ladder, h \\in InnerLadder} ELSE {})
+              \\cup (IF Deep THEN {RenderMin(Fill(tp, h)) : tp \\in {<<"add", "a">>, <<"and", "b">>, <<"between", "hi">>, <<"instof", "a">>, <<"path", "a">>, <<"filter", "a">>, <<"invoke", "f">>, <<"neg", "a">>}, h \\in InnerLadder} ELSE {})
               \\cup {<<"substring", "(", "\\"abc\\"", ",", "2", ",", "1", ")">>, <<"date", "(", "\\"2021-01-01\\"", ")">>, <<"@", "\\"P1D\\"">>,
                     <<"for", "i", "in", "1", "..", "3", "return", "i", "*", "2">>, <<"{", "a", ":", "1", ",", "b", ":", "a", "+", "1", "}", ".", "b">>,
                     <<"some", "i", "in", "[", "1", ",", "2", "]", "satisfies", "i", ">", "1">>, <<"[", "1", "..", "5", ")">>, <<"not", "(", "1", ",", "[", "2", "..", "3", "]", ")">>,
@@ -116,10 +116,11 @@ FaultSeeds == {RenderMin(Fill(tp, C)) : tp \\in Templates} \\cup {RenderMin(h) :
 Alphabet == {<<t>> : t \\in {"(", ")", "[", "]", "{", "}", ",", ":", ".", "..", "-", "+", "*", "**", "/", "=", "<", ">=", "!=", "in", "and", "or", "not", "if", "then", "else", "for", "return",
                             "some", "every", "satisfies", "function", "between", "instance of", "null", "true", "1", "0.5", "a", "item", "\\"s\\"", "\\"", "@", "?", "->", "external", "//", "/*", "*/"}}
             \\cup {<<"(", ")">>, <<"[", "]">>, <<"-", "-">>, <<"in", "(">>, <<"a", " ", "b">>}
-SmallAlphabet == {<<t>> : t \\in {"(", ")", "[", ",", ".", "..", "-", "in", "and", "function", "null", "\\"", "@"}}
+SmallAlphabet == {<<t>> : t \\in {"(", "[", ",", "-", "in", "\\""}}
 Mutants(d, alpha) == {Apply(d, op) : op \\in SingleFaults(d, alpha)}
 FaultDocs == UNION {Mutants(d, Alphabet) : d \\in FaultSeeds}
-DoubleDocs == IF Deep THEN UNION {UNION {Mutants(m, SmallAlphabet) : m \\in Mutants(d, SmallAlphabet)} : d \\in {RenderMin(Fill(tp, C)) : tp \\in Ladder}} ELSE {}
+DoubleSeeds == {RenderMin(Fill(tp, C)) : tp \\in {<<"add", "a">>, <<"between", "a">>, <<"filter", "a">>, <<"invoke", "f">>, <<"path", "a">>, <<"in", "b">>}}
+DoubleDocs == IF Deep THEN UNION {UNION {Mutants(m, SmallAlphabet) : m \\in Mutants(d, SmallAlphabet)} : d \\in DoubleSeeds} ELSE {}
 
 VARIABLE c
 Emit(fam, S) == \\E d \\in S : c = [fam |-> fam, toks |-> d] /\\ PrintT(<<"CASE", ToJson(c)>>)
